@@ -11,18 +11,20 @@ CHECKS = {
     text="Natives.tla is the dispatch-and-validation layer of vm.rs / core.rs as total functions over an adversarial pool of 78 values "
          "(every Value variant; boundary numbers -0, 0.5, NaN, +-inf, +-2^63; empty / multi-byte strings; empty, invalid-byte and self-containing "
          "vectors, maps; unhashable tuples; classes, metaclasses, instances incl. of classes derived from built-ins; closures of every arity, bound "
-         "methods and natives; fresh / exhausted iterators; new / suspended / finished fibers; a module). TLC enumerates every case of 14 forms "
-         "(method call with 0-3 arguments of every name on every receiver, property get / set, calls, 18 binary and 3 unary operators, indexing, "
-         "index assignment, ranges, iteration, map keys, inheritance, throw, formatting, and each operation repeated on the same objects) as initial "
-         "states, proves the outcome function total (invariant Defined) and prints the predicted outcome - completes, or error class + exact "
-         "message; each case runs on the checked and the optimised build and must give exactly that; the host must survive every case. "
+         "methods and natives; fresh / exhausted iterators; new / suspended / finished fibers; a module; ranges and slices with bounds at +-2^63). "
+         "TLC enumerates every case of 17 forms (method call with 0-3 arguments of every name on every receiver, property get / set, calls, 18 binary and "
+         "3 unary operators, indexing, index assignment, ranges, iteration incl. stepping every iterable, map keys, inheritance, throw, formatting, each "
+         "operation repeated on the same objects, and each operation with an argument that IS the receiver) as initial states, proves the outcome function total (invariant Defined) and prints the predicted outcome - completes, or error class + exact "
+         "message; each case runs on the checked and the optimised build and must give exactly that, a rejected operation must leave the variables "
+         "holding its operands untouched, and the host must survive every case. The iteration and fiber scenario products (containers mutated while "
+         "iterated, iterators shared between loops, fibers called in every state) are executed by the reference machine and replayed. "
          "StackBudget.tla models the frame and slot budgets of a fiber; its terminal states predict the outcome of call chains (functions, methods, "
          "lambdas, inside fibers) around the 64-frame limit with narrow and wide frames, and of deeply nested data.",
     note="Exhaustive over the stated pool and forms only (not over all programs). String byte semantics are Strings.tla's (C13); results of "
          "successful operations are checked by C05/C12/C13, here only that they complete. Four genuine defects (natives on instances of classes "
          "derived from built-ins, == on two self-containing containers, value-stack overrun with wide frames, deep nesting) are recorded findings: "
          "their cases are expected to crash today and are reported as KNOWN-FINDING.",
-    technique="TLA+ total outcome function (Natives.tla, StackBudget.tla) + TLC exhaustive case enumeration + one implementation run per case on two builds",
+    technique="TLA+ total outcome function (Natives.tla, StackBudget.tla) + TLC exhaustive case enumeration + one implementation run per case on two builds; scenario products through Machine.tla",
     design="4 C02"),
  "C19": dict(
     level="model_checking",
@@ -57,7 +59,9 @@ CHECKS = {
          "exceptions, fibers, classes, iteration, errors, modules, snippet sequences, HashMap) and of TLC-generated programs is executed by the machine "
          "under TLC and replayed on each build of the configuration set - quick: dev and release; thorough: additionally release with each of safe_stack, "
          "safe_active_fiber, safe_vm_opcodes, safe_class_lookup, debug_stress_gc, release with all of them, dev with all of them. Agreement with the "
-         "specification on every build implies pairwise agreement; the repository's 546 scripts are also compared pairwise across the builds.",
+         "specification on every build implies pairwise agreement; the repository's 546 scripts are also compared pairwise across the builds, as are "
+         "the operations of Natives.tla with boundary operands (overflow-checked vs wrapping arithmetic: extreme ranges, shifts, indices) and the "
+         "programs whose correctness depends on when the collector runs (C01's edge probes under each build's own collection schedule).",
     note=MACHINE_NOTE + " The other profile checks (C05-C09, C12-C18) already replay on dev and release; this check adds the feature matrix.",
     technique="TLA+ reference machine (TLC) + replay of the same expectations on every build configuration", design="4 C10"),
  "C13": dict(
@@ -65,7 +69,7 @@ CHECKS = {
     text="Strings.tla is a byte-level reference model (UTF-8 boundaries, characters, code points, validity) of string / vector / tuple indexing and "
          "slicing and of every string function, with the error classes, messages and check order of the code. TLC enumerates every case of the pools "
          "as an initial state - all strings of <= 2 (thorough 3) characters over an alphabet mixing 1-, 2-, 3- and 4-byte characters x every index "
-         "around every boundary x special numbers x non-numbers, every range, every function with every argument combination, byte and code point "
+         "around every boundary x special numbers x non-numbers, every range incl. bounds at the two ends of the integer domain, every function with every argument combination, byte and code point "
          "sequences valid and invalid - proves that every produced string is valid UTF-8, and prints the expected result of each case; each case is "
          "run as a one-line program on the implementation and must print exactly that.",
     note="Exhaustive over the stated pools only. Number parsing / printing inside strings belongs to C19.",
@@ -86,8 +90,10 @@ CHECKS = {
          "globals (built-ins + core classes), delivers ImportError for circular, missing and uncompilable modules to the importing statement, and "
          "keeps the as-built rule that a module whose body failed stays 'loading'. Seeded import graphs over main + 1-3 modules (self loops, cycles, "
          "diamonds; imports at top level / in try / in functions / aliased; missing, uncompilable, throwing members; same global names everywhere; "
-         "reads, writes and calls through module objects) are executed by the machine under TLC and replayed on both builds through a module loader "
-         "serving the generated sources.",
+         "reads, writes and calls through module objects; the importer's globals of every kind - values, built-in functions, classes, closures - "
+         "stay invisible inside modules and are not attributes of them) are executed by the machine under TLC and replayed on both builds through a "
+         "module loader serving the generated sources; 120 products of how control comes back into a module (exception landing on a handler, fiber "
+         "yield / finish, return, import completing or failing) x what the continuing code does with its globals.",
     note=MACHINE_NOTE + " Scenario products are built outside TLC; not exhaustive.",
     technique="TLA+ reference machine (TLC) + scenario products replayed on the implementation", design="4 C14"),
  "C15": dict(
@@ -142,7 +148,12 @@ CHECKS = {
          "control-flow programs with if/else, while, for, break, continue, blocks, functions, return) and Machine.tla executes each one in the "
          "same TLC behaviour, so TLC visits every program of the exhaustive budgets with its complete run and random larger ones in simulation; "
          "every program is pretty-printed with minimal parentheses from the specification's precedence table and run on the real interpreter; "
-         "printed lines, outcome, error class, message and trace must be equal.",
+         "printed lines, outcome, error class, message and trace must be equal. Added products: loop exits past partly captured locals, every way a "
+         "function can end (18 last-statement shapes x 4 kinds of function, every path taken), expression forms outside the operator profiles "
+         "(compound assignment to properties / module attributes with every operator, chained assignments, short-circuit operators with effects, "
+         "nested interpolation); every operator, index, index assignment and range construction over the adversarial operand pool of Natives.tla "
+         "(outcome class and message); and the rule that an assignment is not an operand (`2 * o.x = 5` is a compile error for every operator and "
+         "every kind of target).",
     note=MACHINE_NOTE, technique="TLA+ reference machine + TLC-generated programs (exhaustive + simulation) replayed on the implementation", design="4 C05"),
  "C06": dict(
     level="model_checking",
